@@ -277,6 +277,18 @@ func RunC02(tier string, args []string) int {
 			}
 		}
 	}
+	if tier == "thorough" {
+		// lists of four responders
+		for a := 0; a < nb; a++ {
+			for b := 0; b < nb; b++ {
+				for d := 0; d < nb; d++ {
+					for e := 0; e < nb; e++ {
+						lists = append(lists, []int{a, b, d, e})
+					}
+				}
+			}
+		}
+	}
 	chains := []int{0, 1, 2, 3, 4}
 	nextUpds := []bool{false, true}
 	if tier != "thorough" {
@@ -300,7 +312,7 @@ func RunC02(tier string, args []string) int {
 	cov := fw.Coverage{
 		"evaluations":         evals,
 		"distinct_nontrivial": nontrivial,
-		"rule":                "all responder lists of length 0..3 over 9 behaviours (820 lists) x aia_strict(2) x default cache duration {0,10m} x nextUpdate {absent,+1h} (thorough) x chain shape (3 quick / 5 thorough, incl. a chain which does not contain the issuer); each case is a 2-event history on a fresh checker: lookup, all responders down, lookup. Non-trivial = at least one responder named.",
+		"rule":                "all responder lists of length 0..3 (quick, 820 lists) / 0..4 (thorough, 7381 lists) over 9 behaviours x aia_strict(2) x default cache duration {0,10m} x nextUpdate {absent,+1h} (thorough) x chain shape (3 quick / 5 thorough, incl. a chain which does not contain the issuer); each case is a 2-event history on a fresh checker: lookup, all responders down, lookup. Non-trivial = at least one responder named.",
 		"samples":             samples,
 		"outcome_classes":     outcomes.Counts(),
 		"exhaustive":          true,
